@@ -15,22 +15,27 @@ structure InvI (s : State) : Prop where
   logLast : lastOf s.log ≤ s.last
   incr : IdsIncrease s.log
   counts : Counts s.log
+  genLog : s.gen = cntG s.log
+
+theorem invI_iff (s : State) : InvI s ↔
+    (s.last ≤ s.fid ∧ (s.ps.inLoop → s.fid ≤ s.sfid ∧ s.sfid = s.gen) ∧ (s.ps = .start → s.fid = 0 ∧ s.gen = 0) ∧
+     (0 < s.nruns → s.fid ≤ s.gen) ∧ lastOf s.log ≤ s.last ∧ okFrom none s.log ∧ Counts s.log ∧ s.gen = cntG s.log) :=
+  ⟨fun ⟨a, b, c, d, e, f, g, h⟩ => ⟨a, b, c, d, e, f, g, h⟩, fun ⟨a, b, c, d, e, f, g, h⟩ => ⟨a, b, c, d, e, f, g, h⟩⟩
 
 theorem invI_init (A : List Op) (B : Option (List Op)) : InvI (init A B) := by
-  cases B <;> cases A <;> constructor <;> simp [init, lastOf, IdsIncrease, okFrom, Counts]
+  cases B <;> cases A <;> constructor <;> simp [init, lastOf, IdsIncrease, okFrom, Counts, cntG]
 
 set_option maxHeartbeats 4000000 in
 theorem invI_step {s s' : State} (t : Tid) (h1 : InvR s) (h : InvI s) (hs : step s t = some s') : InvI s' := by
-  obtain ⟨i1, i2, i3, i4, i5, i6, i7⟩ := h
+  obtain ⟨i1, i2, i3, i4, i5, i6, i7, i8⟩ := h
   obtain ⟨r1, r2, r3, r4, r5⟩ := h1
   unfold IdsIncrease at i6
+  rw [invI_iff]
   cases t <;> step_cases hs
-  all_goals (constructor <;> (try unfold IdsIncrease) <;> simp only [lastOf, okFrom, Counts])
+  all_goals (simp only [lastOf, okFrom, Counts, cntG])
   all_goals (first
-    | (simp_all; done)
-    | (simp_all; omega)
-    | (cases hps : State.ps s <;> simp_all <;> omega)
-    | (refine ⟨by simp, okFrom_of_lastOf_lt i6 ?_⟩; simp_all; omega)
-    | (simp_all; trace_state; fail "close"))
+    | grind
+    | (refine ⟨?_, ?_, ?_, ?_, ?_, ⟨?_, okFrom_of_lastOf_lt i6 ?_⟩, ?_, ?_⟩ <;> grind)
+    | (trace_state; fail "close"))
 
 end AcqVerif.SimConc
